@@ -139,6 +139,7 @@ type runMode struct {
 	Ready   bool `json:"ready"` // the correlator takes the login; otherwise the context is cancelled and nobody reads
 	Framed  bool `json:"framed"`
 	Pad     int  `json:"pad"`
+	Debug   bool `json:"debug_logging,omitempty"` // the sshd package logger has DEBUG enabled
 }
 
 func counters(reg *prometheus.Registry) map[string]float64 {
@@ -172,6 +173,7 @@ func runOne(tok, msg string, mode runMode) observation {
 	// one long-lived registry and provider for the whole run, as in the daemon: counters are
 	// read before and after each line
 	reg, pm := sharedReg, sharedPM
+	sshd.SetLogger(hutil.Logger(mode.Debug))
 	seq := 0
 	enc := &encRec{fail: !mode.WriteOK, seq: &seq}
 	logins := make(chan common.RemoteUserLogin) // unbuffered, as in cmd/namedpipe.go
@@ -406,6 +408,9 @@ func main() {
 		if !mode.WriteOK {
 			sum.Dist("mode_write_failure")
 		}
+		if mode.Debug {
+			sum.Dist("mode_debug_logging")
+		}
 		if !mode.Ready {
 			sum.Dist("mode_cancelled")
 		}
@@ -440,13 +445,24 @@ func ruleText(prop string) string {
 }
 
 func genCase(r *hutil.Rand, prop string, i int) (genLine, string, runMode) {
-	mode := runMode{WriteOK: true, Ready: true}
+	mode := runMode{WriteOK: true, Ready: true, Debug: i%3 == 1}
 	switch prop {
 	case "C06":
 		return genForm(r, formNames[i%len(formNames)]), genPidToken(r, false), mode /*C06LIST*/
 	case "C17":
+		if i%4 == 3 { // through the syslog ingester, as in the daemon
+			mode.Framed, mode.Pad = true, i%3
+		}
 		return genClientName(r), genPidToken(r, false), mode
 	case "C11":
+		switch i % 7 {
+		case 3: // through the syslog ingester, as in the daemon: what reaches the processor must be the line's own bytes
+			mode.Framed, mode.Pad = true, i%3
+			return genClientName(r), genPidToken(r, false), mode
+		case 5:
+			mode.Framed, mode.Pad = true, i%2
+			return genForm(r, hutil.Pick(r, formNamesAll)), genPidToken(r, false), mode
+		}
 		if i%5 == 0 {
 			return genForm(r, hutil.Pick(r, formNamesAll)), genPidToken(r, true), mode
 		}
